@@ -302,15 +302,17 @@ impl<T> RawTable<T> {
         if bucket.in_main {
             self.table.replace_bucket_with(bucket.bucket, f)
         } else if let Some(ref mut lo) = self.leftovers {
-            let items = &mut lo.items;
-            let b = bucket.bucket.clone();
-            lo.table.replace_bucket_with(b, move |t| {
-                let v = f(t);
-                if v.is_none() {
-                    items.reflect_remove(&bucket.bucket);
-                }
-                v
-            })
+            // The element is taken out of the old table _before_ `f` runs (and `f` may panic),
+            // so the cached iterator must hear about the removal first: `reflect_remove` has to
+            // precede the removal. If `f` puts a value back, the bucket is exactly as it was,
+            // and so the iterator can be too.
+            let before = lo.items.clone();
+            lo.items.reflect_remove(&bucket.bucket);
+            let kept = lo.table.replace_bucket_with(bucket.bucket, f);
+            if kept {
+                lo.items = before;
+            }
+            kept
         } else {
             unreachable!("invalid bucket state");
         }
